@@ -677,6 +677,55 @@ def blackbox_sites(model, res):
     return n
 
 
+# ---------------------------------------------------------------------------
+# family 10: elastic-plastic piston (total stress = pressure - deviatoric stress replaces pressure)
+
+def ep_piston_site(model, res):
+    """Elastic precursor from rest to the yield state and plastic wave from the yield state to the piston
+    state, for ANY yield density (the elasticity model enters only through rho_y) and ANY plastic wave
+    speed (a numerical root): the closed forms e_y, p_y, wv_el, vel_y and p2, rho2, e2 satisfy the three
+    jump conditions identically; the function whose root is the plastic wave speed is the Mie-Gruneisen
+    consistency of that state."""
+    cls = model.get_class('exactpack.solvers.ep_piston.ep_piston:EPpiston')
+    b = Builder(model)
+    objn, _ = b.run_solver(cls, run=False)
+    h = b.heap[objn.val.oid]
+    need = ['rho_y', 'e_y', 'p_y', 'sdev_y', 'wv_el', 'vel_y', 'wv_pl', 'p2', 'rho2', 'e2']
+    if any(a not in h for a in need):
+        raise AnalysisError('EPpiston no longer sets %s' % [a for a in need if a not in h])
+    keys = model.parameters_keys(cls) or []
+    ev = NFEval(keys)
+    ev.memo[h['rho_y'].nid] = ev.atom('param:rho_y')          # any yield density
+    ev.memo[h['wv_pl'].nid] = ev.atom('param:wv_pl')          # any plastic wave speed
+    sy = NFSym(ev)
+
+    def S(a):
+        x = ev.nf(h[a])
+        if x is NAN or isinstance(x, (PW, Struct)):
+            raise AnalysisError('EPpiston.%s is not a closed form' % a)
+        return sy.conv(x)
+    v = {a: S(a) for a in need}
+    rho0, up = sy.atom('param:rho0'), sy.atom('param:up')
+    init = cls.find_method('__init__')
+    zero_ = sp.Integer(0)
+    # total stress sigma = p - sdev
+    pre = {'rho': rho0, 'u': zero_, 'p': zero_, 'e': zero_}
+    post = {'rho': v['rho_y'], 'u': v['vel_y'], 'p': v['p_y'] - v['sdev_y'], 'e': v['e_y']}
+    site = Site(res, 'EP piston: elastic precursor, rest -> yield state (total stress p - sdev)', init,
+                h['e_y'].origin[1], sy.units)
+    # rh_residuals uses e + p/rho + w^2/2 with p the total stress: that is the energy flux balance divided by the mass flux
+    for label, expr in rh_residuals(pre, post, v['wv_el']).items():
+        site.check(label, expr, 'closed-form yield state e_y, p_y = Gruneisen(rho_y, e_y), wv_el, vel_y for every yield density')
+    pre2 = post
+    post2 = {'rho': v['rho2'], 'u': up, 'p': v['p2'] - v['sdev_y'], 'e': v['e2']}
+    site2 = Site(res, 'EP piston: plastic wave, yield state -> piston state (total stress p - sdev)', init,
+                 h['e2'].origin[1], sy.units)
+    for label, expr in rh_residuals(pre2, post2, v['wv_pl']).items():
+        site2.check(label, expr, 'closed-form piston state p2, rho2, e2 for every plastic wave speed')
+    res.analysed.append(cls.fullname)
+    return 2
+
+
 def run(model, tier):
     res = Result(PROP)
     res.explanation = (
@@ -709,11 +758,12 @@ def run(model, tier):
     sites += sdrz_site(model, res)
     sites += geneos_site(model, res)
     sites += blackbox_sites(model, res)
+    sites += ep_piston_site(model, res)
     res.extra['jump_sites'] = sites
     if sites < MIN_SITES:
         raise AnalysisError('only %d jump sites analysed (confirmed on the pinned tree: %d)' % (sites, MIN_SITES))
     res.extra['not_decided'] = [
-        'elastic-plastic piston (jump solves are numerical root finds)',
+        'elastic-plastic piston: the plastic wave speed itself (fsolve); the closed forms around it are decided',
         'black-box Noh shocked state itself (Newton iteration; only that F is the jump conditions is decided)',
         'RMTV isothermal shock (numerical integration of the similarity ODEs)',
         'GenEOS star state (bisection on the spliced P-U curves; only the Hugoniot / speed helpers are decided)',
